@@ -21,6 +21,8 @@ pub fn main(args: &[String]) {
         sim.trace_tail = arg(args, "--trace", "0").parse().unwrap_or(60);
         // every fourth run is adversarial: hand-made peer messages, pointwise tie only (no P traces)
         sim.adversarial = k % 4 == 3;
+        // half of the runs never propose a membership change: their P-level traces cover the whole run
+        sim.fixed_conf = k % 4 < 2;
         sim.run(steps);
         if !sim.adversarial {
             let (c, i) = sim.pt.lines();
